@@ -392,7 +392,8 @@ fn main() {
   let plans: Vec<&LangPlan> = if args.thorough() { PLANS.iter().collect() } else { PLANS.iter().take(1).collect() };
   for p in plans {
     let spec = spec_by_name(p.lang).unwrap();
-    let k = if args.thorough() { 4 } else { 3 };
+    // thorough: 4 siblings for javascript, 3 for the other two languages (4 everywhere took > 25 min)
+    let k = if args.thorough() && p.lang == "javascript" { 4 } else { 3 };
     let srcs = sources(p, k);
     let trees: Vec<(String, AstGrep<D>)> = srcs.iter().map(|s| (s.clone(), spec.lang.ast_grep(s))).collect();
     let mut atoms: Vec<R> = p.atoms.iter().map(|a| R::Pat(a.to_string())).collect();
